@@ -692,7 +692,8 @@ int main(int argc, char **argv) {
       "node contents and 2 child names of palette p (6 palettes rotate through all names and values); trees_d3: ALL 80 802 trees of depth <= 3 over 2/2/1/2 "
       "contents per level and 2 child names per level under ASan, and ALL 1 045 458 trees over 2 contents on every level in the -O2 part (fast_trees_d3_full); attmeta_k<n>: ALL lists of 0..2 attribute blocks with ids from {0, 3 existing; 1, 300 missing} "
       "(duplicates allowed) and block trees from the n trees of depth <= 1 over palette 0, x {empty root, plain root}",
-      "quick = focus levels 0..2 (depth <= 2 plus leaf children), placement 0 full, placements 1/2 with entry sets only; thorough adds level 3 and "
+      "quick = focus levels 0..2 (depth <= 2 plus leaf children), placement 0 full, placements 1/2 with entry sets only, trees_d2c2_pal<p> (the depth-2 "
+      "trees over 2 of the 3 node contents); thorough adds level 3 and "
       "the full product for every placement, trees_d3 and attmeta_k48",
       "ASan+UBSan part: EntryValue's constructors are undefined for an empty value (UBSan abort before anything is encoded), so the product spaces "
       "of this part use the 6 non-empty values and the spaces empty_value_* put an empty value on every level (thorough: every entry set over 6 names x 7 values that "
@@ -716,7 +717,13 @@ int main(int argc, char **argv) {
     }
   for (int p = 0; p < (fast ? 7 : 6); ++p) {
     const TreeAlphabet a = palette(p, VV, 2);
-    add(R, px + "trees_d2_pal" + std::to_string(p), count_trees(a, 0, 2), true, true, [=](uint64_t idx) { return place(unrank_tree(a, 0, 2, idx), 0); });
+    // 3 node contents: 7203 trees (thorough, and quick in the -O2 part); 2 node contents {none, two entries}: 722 trees (ASan quick)
+    add(R, px + "trees_d2_pal" + std::to_string(p), count_trees(a, 0, 2), fast, true, [=](uint64_t idx) { return place(unrank_tree(a, 0, 2, idx), 0); });
+    if (!fast) {
+      TreeAlphabet a2 = a;
+      for (auto &c : a2.contents) c.erase(c.begin() + 1);
+      add(R, "trees_d2c2_pal" + std::to_string(p), count_trees(a2, 0, 2), true, false, [=](uint64_t idx) { return place(unrank_tree(a2, 0, 2, idx), 0); });
+    }
   }
   {
     // ASan part: 80 802 trees (2,2,1,2 contents per level); -O2 part: all 1 045 458 trees (2 contents on every level)
